@@ -309,4 +309,72 @@ def load_tables(repo=None):
                     t.columns[col.name] = col
                     ours.add((t.name, col.name))
     added = sorted(ours)
+    _apply_migration_primary_keys(tables, repo)
     return tables, added, seed_inserts
+
+
+def migration_primary_keys(repo=None):
+    """{table: primary-key columns or None} obtained by replaying, in build.yaml order, the statements of the migrations that
+    decide a table's primary key: CREATE TABLE, RENAME TABLE, DROP TABLE, ALTER TABLE ... DROP PRIMARY KEY / ADD PRIMARY KEY /
+    RENAME TO.  The migrations are the deployed truth; estimated-current.sql is only a summary."""
+    repo = repo or REPO
+    pk = {}
+    for fn in batch_migrations(repo):
+        if not fn.endswith('.sql'):
+            continue
+        msql = open(os.path.join(repo, 'batch', 'sql', fn)).read()
+        for st in split_statements(msql):
+            up = st.upper().lstrip()
+            if up.startswith('CREATE TABLE'):
+                tmp = {}
+                try:
+                    parse_create_table(st, tmp)
+                except Exception:  # a table the tolerant parser cannot read keeps the summary's key
+                    continue
+                for n, t in tmp.items():
+                    pk[n] = tuple(t.pk) if t.pk else None
+            elif up.startswith('RENAME TABLE'):
+                for a, b in re.findall(r'`?(\w+)`?\s+TO\s+`?(\w+)`?', st, re.I):
+                    if a.lower() in pk:
+                        pk[b.lower()] = pk.pop(a.lower())
+            elif up.startswith('DROP TABLE'):
+                m = re.match(r'DROP\s+TABLE\s+(?:IF\s+EXISTS\s+)?`?(\w+)`?', st, re.I)
+                if m:
+                    pk.pop(m.group(1).lower(), None)
+            else:
+                m = re.match(r'ALTER\s+TABLE\s+`?(\w+)`?\s+(.*)$', st, re.S | re.I)
+                if not m:
+                    continue
+                tn = m.group(1).lower()
+                for cl in _split_top(m.group(2)):
+                    cl = cl.strip()
+                    if re.match(r'DROP\s+PRIMARY\s+KEY', cl, re.I):
+                        pk[tn] = None
+                    am = re.match(r'ADD\s+PRIMARY\s+KEY\s*\((.*?)\)', cl, re.I | re.S)
+                    if am:
+                        pk[tn] = tuple(_cols_list(am.group(1)))
+                    rm = re.match(r'RENAME\s+(?:TO\s+)?`?(\w+)`?\s*$', cl, re.I)
+                    if rm and tn in pk:
+                        pk[rm.group(1).lower()] = pk.pop(tn)
+                        tn = rm.group(1).lower()
+    return pk
+
+
+def _apply_migration_primary_keys(tables, repo):
+    for n, cols in migration_primary_keys(repo).items():
+        t = tables.get(n)
+        if t is None or not cols or any(c not in t.columns for c in cols):
+            continue
+        cur = tuple(t.pk) if t.pk else None
+        if cur == tuple(cols):
+            continue
+        # the migrations leave this table with another primary key than the summary says
+        if t.pk:
+            t.uniques.pop(0)
+            t.unique_names.pop(0)
+        t.pk = tuple(cols)
+        t.uniques.insert(0, t.pk)
+        t.unique_names.insert(0, 'PRIMARY')
+        for c in t.pk:
+            t.columns[c].nullable = False
+        t.uidx = [dict() for _ in t.uniques]
